@@ -124,9 +124,16 @@ type scase struct {
 	ctor bool
 	recv int   // index into receivers (ignored for ctor)
 	args []int // indices into argKinds
+	// lits, when set, are the arguments as string literals / expressions instead
+	// (family surface-frag); litNames are their names in the key.
+	lits     []string
+	litNames []string
 }
 
 func (c *scase) argNames() string {
+	if c.lits != nil {
+		return strings.Join(c.litNames, ",")
+	}
 	n := make([]string, len(c.args))
 	for i, a := range c.args {
 		n[i] = argKinds[a].Name
@@ -157,6 +164,9 @@ func (c *scase) source() string {
 	for i, x := range c.args {
 		a[i] = ref("__A", argKinds, x)
 	}
+	if c.lits != nil {
+		a = c.lits
+	}
 	if c.ctor {
 		return fmt.Sprintf("new __F[%d](%s)", c.fn.Idx, strings.Join(a, ", "))
 	}
@@ -169,6 +179,9 @@ func (c *scase) rendered() string {
 	a := make([]string, len(c.args))
 	for i, x := range c.args {
 		a[i] = kindText(argKinds[x])
+	}
+	if c.lits != nil {
+		a = c.lits
 	}
 	p := strings.ReplaceAll(c.fn.Path, ".[[Prototype]]", ".__proto__")
 	if c.ctor {
@@ -409,4 +422,84 @@ func trimStack(s string) string {
 		return s[:3000] + "\n..."
 	}
 	return s
+}
+
+// surface-frag: degenerate numeric / prefix / escape / pattern FRAGMENTS as the
+// string value of every parameter position. The argument kinds of the other
+// surface families contain three well-formed strings; parsers inside built-ins
+// (parseInt after the sign is stripped, number and date grammars, percent
+// escapes, replacement templates, patterns) break on the fragments that are
+// left when a prefix is consumed.
+var fragments = []string{"+", "-", "+ ", "0x", "0X", "-0x", "+0x", ".", "e", "e1", "+.", "-.", "0.", "Inf", " ", "\t", "\n", "\ufeff", "%", "%u", "%u1", "%4", "\\", "$", "$1", "$&",
+	"/", "(", "[", "*", "0", "-0", "1e", "0b", "0o", "\u2028", "T", ":", "Z", "-1-", "{", "\"", "'", "\x00"}
+
+// companions of a fragment in the arity-2 tuples
+var fragCompanions = [][2]string{{"undefined", "undefined"}, {"0", "0"}, {"16", "16"}, {"str-abc", `"abc"`}, {"regexp", "/a/g"}}
+
+var fragReceiversQuick = []string{"undefined", "str-abc", "0", "regexp"}
+var fragReceiversDeep = []string{"undefined", "str-abc", "0", "regexp", "object", "array", "date", "String", "str-u16", "Number"}
+
+// quick tier: the global functions and the Number / String / RegExp / JSON /
+// Date / Math entry points
+func fragQuickFunction(path string) bool {
+	if !strings.Contains(path, ".") {
+		return true
+	}
+	for _, p := range []string{"Number", "String", "RegExp", "JSON", "Date", "Math"} {
+		if strings.HasPrefix(path, p+".") {
+			return true
+		}
+	}
+	return false
+}
+
+func runSurfaceFrag(r *rc) {
+	t, err := getTemplate()
+	if err != nil {
+		r.HarnessError(err.Error())
+		return
+	}
+	defer muteStdout()()
+	recvNames := fragReceiversQuick
+	if r.Thorough() {
+		recvNames = fragReceiversDeep
+	}
+	for _, fn := range t.fns {
+		if !r.Thorough() && !fragQuickFunction(fn.Path) {
+			continue
+		}
+		for _, rn := range recvNames {
+			ri := kindIndex(receivers, rn)
+			for fi, f := range fragments {
+				lit := ox.JSLit(f)
+				name := fmt.Sprintf("S%02d", fi)
+				tuples := [][2][]string{{{lit}, {name}}}
+				for ci, c := range fragCompanions {
+					if !r.Thorough() && ci != 0 && ci != 2 {
+						continue // quick tier: companions undefined and 16
+					}
+					tuples = append(tuples, [2][]string{{lit, c[1]}, {name, c[0]}}, [2][]string{{c[1], lit}, {c[0], name}})
+				}
+				for _, tp := range tuples {
+					for _, ctor := range []bool{false, true} {
+						if ctor && rn != recvNames[0] {
+							continue
+						}
+						c := &scase{fn: fn, recv: ri, ctor: ctor, lits: tp[0], litNames: tp[1]}
+						key := c.key()
+						if !r.MineKey(key) {
+							continue
+						}
+						if r.Expired() {
+							r.Cap("time budget reached")
+							return
+						}
+						execSurface(r, t, c, key)
+					}
+				}
+			}
+		}
+	}
+	r.Bound("fragments", fmt.Sprint(len(fragments)))
+	r.Bound("receivers", fmt.Sprint(len(recvNames)))
 }
